@@ -47,6 +47,9 @@ class Suspend:
         yield self
 
 
+STATUS_OF = {"AUTH": 401, "PERMISSION": 403, "PERMANENT": 404, "CONCURRENCY": 409, "RATE_LIMIT": 429,
+             "SERVER_ERROR": 503, "TRANSIENT": 408}
+
 CANCEL = {
     "cancelled": asyncio.CancelledError,
     "keyboard": KeyboardInterrupt,
@@ -78,6 +81,7 @@ class World:
         self.keep = []
         self.susp = 0
         self.pending_throw = None
+        self.no_retry = bool(shared.seq["policies"][call["policy"]].get("no_retry"))
 
     # ---- identity bookkeeping ----
     def remember(self, obj, tag, att):
@@ -108,7 +112,11 @@ class World:
         if kind == "V":
             return self.remember(Value(att), "V", att)
         if kind == "R":
-            raise self.remember(ScriptedError("scripted failure %d" % att), "E", att)
+            err = ScriptedError("scripted failure %d" % att)
+            st = STATUS_OF.get(klass) if self.no_retry else None
+            if st is not None:
+                err.status = st     # default_classifier (used when no retry is configured) answers the scripted class
+            raise self.remember(err, "E", att)
         if kind == "A":
             raise self.remember(AbortRetryError(), "A", att)
         if kind == "N":
@@ -146,7 +154,7 @@ class World:
 
     def classifier(self, exc):
         r = self.objs.get(id(exc))
-        if r is None or r[0] != "E":
+        if r is None or r[0] not in ("E", "O"):
             self.trace.append(["K?", type(exc).__name__])
             return ErrorClass.UNKNOWN
         att = r[1]
@@ -495,7 +503,7 @@ def enc_exception(w, e):
         if tag == "N":
             return ["nested", att]
         if tag == "O":
-            return ["nested_coe", att]
+            return ["raise_op", att]
         if tag == "C":
             return ["cancel", [k for k, v in CANCEL.items() if type(e) is v][0], att]
         if tag == "CS":
